@@ -100,3 +100,29 @@ def transcript(loc) -> list:
             rng.reverse()
         out.extend(rng)
     return out
+
+
+def transcript_parts(loc):
+    """parts in ascending-around-the-ring order (reverse-strand locations store them last exon first)"""
+    parts = list(loc.parts)
+    if len(parts) > 1 and loc.strand == -1:
+        parts.reverse()
+    return parts
+
+
+def wraps(loc):
+    """does a multi-part location step back over the origin between two of its parts"""
+    parts = transcript_parts(loc)
+    return any(int(b.start) < int(a.start) for a, b in zip(parts, parts[1:]))
+
+
+def span_bases(loc, L):
+    """the bases a gene-like location spans including its introns: from its first exon to its last, over the origin if its parts
+    step back over it"""
+    parts = transcript_parts(loc)
+    if len(parts) == 1:
+        return frozenset(range(int(parts[0].start), int(parts[0].end)))
+    first, last = int(parts[0].start), int(parts[-1].end)
+    if wraps(loc):
+        return frozenset(range(first, L)) | frozenset(range(0, last))
+    return frozenset(range(first, last))
